@@ -256,6 +256,11 @@ fn(WS + ".app_send", params={"message": "none | msg(headers:short)"}, task="app"
        ("C11.denial.head", "implies(not old(self.closed) and message is not None and message['type'] == 'websocket.http.response.body' and old(self.state) == ASGIWebsocketState.HANDSHAKE, "
         "n_emitted('sent') >= 1 and isinstance(emitted('sent')[0], Response) and emitted('sent')[0].headers == call_result('build_and_validate_headers') "
         "and implies(tagis(value_of(old(self), 'response')['status'], 'int'), emitted('sent')[0].status_code == value_of(old(self), 'response')['status']))", "C11,C12"),
+       # ... every later body message of a denial (the head is out: state RESPONSE) is forwarded as
+       # one Body event with the same bytes, unless the status forbids a body (1xx, 204, 304)
+       ("C11.denial.body", "implies(not old(self.closed) and message is not None and message['type'] == 'websocket.http.response.body' and old(self.state) == ASGIWebsocketState.RESPONSE, "
+        "implies(has_key(message, 'body'), implies(tagis(message['body'], 'bytes') and not (any_int(value_of(old(self), 'response')['status'], 200) < 200 or any_int(value_of(old(self), 'response')['status'], 200) == 204 or any_int(value_of(old(self), 'response')['status'], 200) == 304), "
+        "trace_any('sent', 'x', isinstance(x, Body) and x.data == message['body']))))", "C11,C02"),
        ("C11.denial.end", "implies(not old(self.closed) and message is not None and message['type'] == 'websocket.http.response.body' and old(self.state) in (ASGIWebsocketState.HANDSHAKE, ASGIWebsocketState.RESPONSE), "
         "last_is('sent', EndBody) == (not truthy(message.get('more_body', False))) and (self.state == ASGIWebsocketState.HTTPCLOSED) == (not truthy(message.get('more_body', False))))", "C11"),
        # C12: the application's extra headers of websocket.accept are validated before they are
